@@ -750,6 +750,30 @@ pub fn mtu(tier: Tier, link_mtu: usize, path_limit: Option<usize>, emsgsize: Opt
     Driver { name: format!("mtu-{link_mtu}-path{path_limit:?}-emsg{emsgsize:?}-retx{probe_retx}"), cfg, prefix, alphabet, depth, state_cap: tier.pick(200_000, 3_000_000) }
 }
 
+/// Closing on a probing path: writes that end in a probe-sized tail, more data written while a probe
+/// is outstanding, both halves dropped at any point, on a path that passes or discards the probe.
+pub fn mtu_close(tier: Tier, path_limit: Option<usize>, probe_retx: usize, depth: usize) -> Driver {
+    let mut d = mtu(tier, 1500, path_limit, None, probe_retx, depth);
+    let def = WndSpec::Default;
+    let fit = path_limit.unwrap_or(usize::MAX);
+    d.name = format!("mtu-close-path{path_limit:?}-retx{probe_retx}");
+    d.alphabet = vec![
+        Act::Write(528 + 991),
+        Act::Write(528 + 900),
+        Act::Write(100),
+        Act::DropWriter,
+        Act::DropReader,
+        Act::Shutdown,
+        state(AckSpec::AllFitting(fit), def, SackSpec::None),
+        state(AckSpec::Plus(1), def, SackSpec::None),
+        Act::Tick,
+    ];
+    if path_limit.is_none() {
+        d.alphabet[6] = state(AckSpec::All, def, SackSpec::None);
+    }
+    d
+}
+
 /// A jumbo link (MTU 9000): the first probe sizes are larger than the initial congestion window.
 pub fn mtu_jumbo(tier: Tier, probe_retx: usize, depth: usize) -> Driver {
     let mut d = mtu(tier, 9000, None, None, probe_retx, depth);
@@ -872,6 +896,9 @@ pub fn all_drivers(tier: Tier) -> Vec<Driver> {
     v.push(mtu_probe_sacked_bidir(tier, 0, 5));
     v.push(mtu_v6(tier, Some(1300), 1, 5));
     v.push(mtu_jumbo(tier, 1, 5));
+    v.push(mtu_close(tier, None, 1, 5));
+    v.push(mtu_close(tier, Some(1000), 1, 5));
+    v.push(mtu_close(tier, Some(1000), 0, 5));
     v.push(nagle_mtu(tier, false, 1, 5));
     v.push(nagle_mtu(tier, true, 1, 5));
     v
